@@ -1378,3 +1378,113 @@ Proof.
   unfold orphaner_tick_breaks, th_old_orphans_count. intros H E. apply N.ltb_lt in E. apply N.ltb_lt.
   pose proof (older_than_mono_now (th_ot t) now now' old_age_ns H). lia.
 Qed.
+
+(* ================================================================ what sm_check's acceptance means *)
+Lemma aget_mark_some rid sid (st : spec_state) r t o :
+  aget sid (mark_orphan rid st) = Some (r, (t, o)) -> exists o', aget sid st = Some (r, (t, o')).
+Proof.
+  rewrite aget_mark. destruct (aget sid st) as [[r0 [t0 o0]]|]; cbn [option_map]; [|discriminate].
+  unfold mark_fun. destruct (r0 =? rid); intros E; inv_some E; eauto.
+Qed.
+Lemma aget_mark_keep rid sid (st : spec_state) v :
+  aget sid st = Some v -> exists v', aget sid (mark_orphan rid st) = Some v'.
+Proof. intros H. rewrite aget_mark, H. cbn. eauto. Qed.
+
+(* while id sid is outstanding, it is not handed out again before a lookup of it *)
+Lemma sm_outstanding_blocks ops : forall st rs sid v j r t t', sm_check_from st ops rs = true ->
+  aget sid st = Some v -> nth_error ops j = Some (OpAlloc r t) ->
+  nth_error rs j = Some (RAlloc (AllocOk sid) t') ->
+  exists k, (k < j)%nat /\ nth_error ops k = Some (OpLookup sid).
+Proof.
+  induction ops as [|o ops IH]; intros st rs sid v j r t t' H Hv Ho Hr; [destruct j; discriminate|].
+  destruct rs as [|x rs]; [discriminate|]. cbn [sm_check_from] in H.
+  destruct (sm_check_step st o x) as [st'|] eqn:Hs; [|discriminate].
+  destruct j as [|j]; cbn [nth_error] in Ho, Hr.
+  - inv_some Ho. inv_some Hr. cbn [sm_check_step] in Hs. rewrite Hv in Hs.
+    rewrite Bool.andb_false_r in Hs. discriminate.
+  - destruct (match o with OpLookup s => s =? sid | _ => false end) eqn:Hl.
+    + destruct o; try discriminate. apply N.eqb_eq in Hl. subst. exists 0%nat. split; [lia|reflexivity].
+    + assert (Hv' : exists v', aget sid st' = Some v').
+      { destruct o as [r0 t0|r0|s0|t0], x as [a tk| |lr|b]; cbn [sm_check_step] in Hs; try discriminate.
+        - destruct a as [s1| |]; try discriminate.
+          + destruct ((s1 <? nids) && match aget s1 st with None => true | Some _ => false end) eqn:E; [|discriminate].
+            inv_some Hs. apply Bool.andb_true_iff in E as [_ E].
+            assert (s1 <> sid). { intros ->. rewrite Hv in E. discriminate. }
+            rewrite aget_aput_other by congruence. eauto.
+          + destruct ((tk =? t0) && (N.of_nat (List.length st) =? nids)); inv_some Hs. eauto.
+        - inv_some Hs. eapply aget_mark_keep; eassumption.
+        - apply N.eqb_neq in Hl.
+          destruct (aget s0 st) as [[r1 [t1 [|]]]|], lr as [|r2 t2|]; try discriminate.
+          + inv_some Hs. rewrite aget_arem_other by congruence. eauto.
+          + destruct ((r1 =? r2) && (t1 =? t2)); inv_some Hs. rewrite aget_arem_other by congruence. eauto.
+          + inv_some Hs. eauto.
+        - destruct (Bool.eqb b _); inv_some Hs. eauto. }
+      destruct Hv' as [v' Hv'].
+      destruct (IH _ _ _ _ _ _ _ _ H Hv' Ho Hr) as (k & Hk & Hn). exists (S k). split; [lia|exact Hn].
+Qed.
+
+(* sentence 2 at the level of the map: between two hand-outs of one id lies a lookup of it (= the
+   peer's answer has been read) -- whether or not the first request was orphaned meanwhile *)
+Theorem sm_check_no_share ops : forall st rs i j sid r1 t1 t1' r2 t2 t2', sm_check_from st ops rs = true ->
+  (i < j)%nat ->
+  nth_error ops i = Some (OpAlloc r1 t1) -> nth_error rs i = Some (RAlloc (AllocOk sid) t1') ->
+  nth_error ops j = Some (OpAlloc r2 t2) -> nth_error rs j = Some (RAlloc (AllocOk sid) t2') ->
+  exists k, (i < k < j)%nat /\ nth_error ops k = Some (OpLookup sid).
+Proof.
+  induction ops as [|o ops IH]; intros st rs i j sid r1 t1 t1' r2 t2 t2' H Hij Ho1 Hr1 Ho2 Hr2;
+    [destruct i; discriminate|].
+  destruct rs as [|x rs]; [discriminate|]. cbn [sm_check_from] in H.
+  destruct (sm_check_step st o x) as [st'|] eqn:Hs; [|discriminate].
+  destruct j as [|j]; [lia|]. cbn [nth_error] in Ho2, Hr2. destruct i as [|i]; cbn [nth_error] in Ho1, Hr1.
+  - inv_some Ho1. inv_some Hr1. cbn [sm_check_step] in Hs.
+    destruct ((sid <? nids) && match aget sid st with None => true | Some _ => false end); [|discriminate].
+    inv_some Hs.
+    destruct (sm_outstanding_blocks _ _ _ sid _ _ _ _ _ H (aget_aput_same _ _ _) Ho2 Hr2) as (k & Hk & Hn).
+    exists (S k). split; [lia|exact Hn].
+  - assert (Hlt : (i < j)%nat) by lia.
+    destruct (IH _ _ _ _ _ _ _ _ _ _ _ H Hlt Ho1 Hr1 Ho2 Hr2) as (k & Hk & Hn). exists (S k). split; [lia|exact Hn].
+Qed.
+
+(* sentence 1 at the level of the map: a lookup that yields a handler yields the handler (request id
+   and token = the waiting caller) that was allocated with exactly that id *)
+Lemma sm_lookup_origin ops : forall st rs k sid rid tok, sm_check_from st ops rs = true ->
+  nth_error ops k = Some (OpLookup sid) -> nth_error rs k = Some (RLookup (LHandler rid tok)) ->
+  (exists o, aget sid st = Some (rid, (tok, o))) \/
+  exists i t', (i < k)%nat /\ nth_error ops i = Some (OpAlloc rid tok) /\
+               nth_error rs i = Some (RAlloc (AllocOk sid) t').
+Proof.
+  induction ops as [|o ops IH]; intros st rs k sid rid tok H Ho Hr; [destruct k; discriminate|].
+  destruct rs as [|x rs]; [discriminate|]. cbn [sm_check_from] in H.
+  destruct (sm_check_step st o x) as [st'|] eqn:Hs; [|discriminate].
+  destruct k as [|k]; cbn [nth_error] in Ho, Hr.
+  - inv_some Ho. inv_some Hr. cbn [sm_check_step] in Hs.
+    destruct (aget sid st) as [[r1 [t1 [|]]]|]; try discriminate.
+    destruct (N.eqb_spec r1 rid), (N.eqb_spec t1 tok); try discriminate. subst. left. eauto.
+  - destruct (IH _ _ _ _ _ _ H Ho Hr) as [[ob Hg]|(i & t' & Hi & A & B)].
+    + destruct o as [r0 t0|r0|s0|t0], x as [a tk| |lr|b]; cbn [sm_check_step] in Hs; try discriminate.
+      * destruct a as [s1| |]; try discriminate.
+        -- destruct ((s1 <? nids) && match aget s1 st with None => true | Some _ => false end); [|discriminate].
+           inv_some Hs. destruct (N.eq_dec sid s1).
+           ++ subst. rewrite aget_aput_same in Hg. inv_some Hg. right. exists 0%nat, tk.
+              split; [lia|]. split; reflexivity.
+           ++ rewrite aget_aput_other in Hg by assumption. left. eauto.
+        -- destruct ((tk =? t0) && (N.of_nat (List.length st) =? nids)); inv_some Hs. left. eauto.
+      * inv_some Hs. left. eapply aget_mark_some; eassumption.
+      * destruct (aget s0 st) as [[r1 [t1 [|]]]|] eqn:G, lr as [|r2 t2|]; try discriminate.
+        -- inv_some Hs. destruct (N.eq_dec sid s0); [subst; now rewrite aget_arem_same in Hg|].
+           rewrite aget_arem_other in Hg by assumption. left. eauto.
+        -- destruct ((r1 =? r2) && (t1 =? t2)); inv_some Hs.
+           destruct (N.eq_dec sid s0); [subst; now rewrite aget_arem_same in Hg|].
+           rewrite aget_arem_other in Hg by assumption. left. eauto.
+        -- inv_some Hs. left. eauto.
+      * destruct (Bool.eqb b _); inv_some Hs. left. eauto.
+    + right. exists (S i), t'. split; [lia|]. split; assumption.
+Qed.
+
+Theorem sm_check_delivery ops rs k sid rid tok : sm_check ops rs = true ->
+  nth_error ops k = Some (OpLookup sid) -> nth_error rs k = Some (RLookup (LHandler rid tok)) ->
+  exists i t', (i < k)%nat /\ nth_error ops i = Some (OpAlloc rid tok) /\
+               nth_error rs i = Some (RAlloc (AllocOk sid) t').
+Proof.
+  intros H Ho Hr. destruct (sm_lookup_origin _ _ _ _ _ _ _ H Ho Hr) as [[o Hg]|Hx]; [discriminate|exact Hx].
+Qed.
